@@ -3,6 +3,7 @@ package bubble
 import (
 	"context"
 	"math/rand"
+	"strings"
 	"testing"
 
 	"github.com/bradenaw/juniper/chans"
@@ -167,6 +168,17 @@ type smStep struct {
 func genStreamMerge(rng *rand.Rand, n int) []smStep {
 	var out []smStep
 	fin := map[int]bool{}
+	if n > 0 && rng.Intn(3) == 0 { // some inputs are empty / have items ready before Merge is even called
+		for i := 0; i < n; i++ {
+			switch rng.Intn(3) {
+			case 0:
+				fin[i] = true
+				out = append(out, smStep{A: "preend", I: i})
+			case 1:
+				out = append(out, smStep{A: "preitem", I: i})
+			}
+		}
+	}
 	for k := 0; k < 3+rng.Intn(12); k++ {
 		c := rng.Intn(100)
 		i := 0
@@ -249,8 +261,19 @@ func runStreamMergeKids(t *testing.T, n int, steps []smStep, kids int) ([]Ev, bo
 			}
 			ins[i] = srcs[i]
 		}
-		s := stream.Merge(ins...)
 		seq := make([]int, n)
+		// leading "pre" steps: inputs that already have items / their end waiting when Merge starts its readers
+		for len(steps) > 0 && strings.HasPrefix(steps[0].A, "pre") {
+			st := steps[0]
+			steps = steps[1:]
+			if st.A == "preend" {
+				srcs[st.I].q <- srcMsg{1, 0}
+			} else {
+				seq[st.I]++
+				srcs[st.I].q <- srcMsg{0, 100*st.I + seq[st.I]}
+			}
+		}
+		s := stream.Merge(ins...)
 		nextID, closed := 0, false
 		busy := func() bool {
 			r.mu.Lock()
